@@ -30,6 +30,9 @@ type C08Params struct {
 	// with what is left - so that it reaches the decoder as the message the receiver is waiting
 	// for (an injected one would be taken for a retransmission). Safety clauses only.
 	Mangle uint64 `json:"mangle,omitempty"`
+	// Clients (Phase "listener", scn_c08lst.go): genuine clients that start during a flood of N
+	// spoofed hellos against a listener whose application begins to accept after SpanMs
+	Clients int `json:"clients,omitempty"`
 }
 
 var c08HelloAlts = []string{"legacy-10", "no-sv", "legacy-10+no-sv", "sv-unknown", "legacy-10+sv-unknown", "suites-unknown", "no-groups", "no-keyshare", "no-sigalgs", "no-exts", "version", "compression"}
@@ -54,6 +57,9 @@ func c08Gen(r *rand.Rand, tier string, idx int) any {
 	} else {
 		ds := DataCfgs()
 		p.Cfg = ds[r.IntN(len(ds))].Name
+	}
+	if r.IntN(12) == 0 {
+		return &C08Params{Mode: "U", Phase: "listener", N: 60 + r.IntN(300), SpanMs: []int{0, 20, 200, 800}[r.IntN(4)], Clients: 1 + r.IntN(3)}
 	}
 	p.N = 1 + r.IntN(60)
 	p.SpanMs = []int{5, 40, 200, 1500}[r.IntN(4)]
@@ -389,6 +395,11 @@ func c08CheckSizes(rc *RunCtx, name string, c *dtls.Conn) bool {
 func c08Run(rc *RunCtx, params any) {
 	p := params.(*C08Params)
 	s := rc.S
+	if p.Phase == "listener" {
+		c08ListenerRun(rc, p)
+
+		return
+	}
 	if p.Phase == "est" {
 		c08EstRun(rc, p)
 
